@@ -125,6 +125,21 @@ def run(ctx):
         batch.append(("wrapped", pat, lines))
         if len(batch) >= 150:
             jobs.append(batch); batch = []
+    # literal text around and BETWEEN real parts that occur twice in one pattern (a directory and a file name that both carry the date, ...)
+    twice = [("0M", "07", "11", "13"), ("YYYY.MM", "2021.5", "2022.12", "2021.13"), ("MAJOR.MINOR[-TAG]", "1.2-beta", "1.2", "1.x"), ("0D", "09", "31", "32"),
+             ("vYYYY0M.BUILD[-TAG]", "v202107.1001-rc", "v202107.1001", "v202113.1001"), ("0V", "07", "52", "54"), ("JJJ", "7", "365", "367")]
+    for lit in rng.sample(lits, min(len(lits), ctx.pick(500, 8000))) + rnd[:ctx.pick(300, 8000)]:
+        if lit.startswith("^") or lit.endswith("$") or not lit:
+            continue
+        part, v1, v2, bad = rng.choice(twice)
+        l1, l3 = rng.choice(["rel-", "a=", "", "dir/"]), rng.choice(["", ".png", "; end", "|"])
+        mid = " " + lit + " "
+        pat = spell(l1) + part + spell(mid) + part + spell(l3)
+        full = l1 + v1 + mid + v1 + l3
+        lines = [full, "x" + full + "y", l1 + v1 + mid + v2 + l3, l1 + v1 + mid + bad + l3, l1 + v1 + mid, mid + v1 + l3, v1 + l3, l1 + v1, v1, l1 + v1 + mid.strip() + v1 + l3, ""]
+        batch.append(("twice", pat, lines))
+        if len(batch) >= 150:
+            jobs.append(batch); batch = []
     # anchors as first / last symbol
     for lit in rng.sample(lits, min(len(lits), 300)):
         if "^" in lit or "$" in lit:
@@ -141,7 +156,7 @@ def run(ctx):
         ctx.divergence("unclassified pattern", u)
     for i, e in enumerate(events):
         e["id"] = i + 1
-    for k in ("alone", "wrapped", "anchored"):
+    for k in ("alone", "wrapped", "twice", "anchored"):
         ctx.count("events_" + k, sum(1 for e in events if e["kind"] == k))
     fails, st = tlc.validate_events("Trace_Text", [{k: v for k, v in e.items() if k not in ("pat", "kind")} for e in events], name="C07")
     ctx.add_trace(st)
@@ -173,7 +188,7 @@ def run(ctx):
     ctx.evaluations = len(events) + n_grep
     for e in events:
         ctx.nontriv((e["pat"], tuple(e["line"])))
-    ctx.rule = ("every literal over 69 symbols up to length %d plus seeded literals up to length 40 (30%% regex metacharacters), alone, wrapped around YYYY.MM and anchored; "
+    ctx.rule = ("every literal over 69 symbols up to length %d plus seeded literals up to length 40 (30%% regex metacharacters), alone, wrapped around YYYY.MM, between two occurrences of the same parts, and anchored; "
                 "each against lines within edit distance 1; `bumpver grep` end to end on a sample; non-trivial = distinct (pattern, line)" % N)
     ctx.exhaustive = False
     for e in events[1000:1003]:
